@@ -31,9 +31,12 @@ def utxo (ver : UInt8) (bs : List EBlock) : HashMap Bytes Unspent :=
 def unspentRows (m : HashMap Bytes Unspent) : List String :=
   m.toList.map fun (k, u) => s!"{hashHex (k.take 32)};{le (k.drop 32)};{u.height};{u.value};{u.address}"
 
+/-- balances.rs on_complete: `*balances.entry(addr).or_insert(0) += value` over the unspent values -/
+def balanceMap (m : HashMap Bytes Unspent) : HashMap String Nat :=
+  m.toList.foldl (fun b (p : Bytes × Unspent) => b.insert p.2.address (b.getD p.2.address 0 + p.2.value)) {}
+
 def balanceRows (m : HashMap Bytes Unspent) : List String :=
-  let b : HashMap String Nat := m.toList.foldl (fun b (_, u) => b.insert u.address (b.getD u.address 0 + u.value)) {}
-  b.toList.map fun (a, v) => s!"{a};{v}"
+  (balanceMap m).toList.map fun (a, v) => s!"{a};{v}"
 
 /-- opreturn.rs -/
 def opreturnLines (ver : UInt8) (bs : List EBlock) : List String :=
